@@ -53,7 +53,7 @@ def leads(work, which):
         if inv not in r["violated"]:
             raise Infra("%s: expected the wrong design to violate %s (non-vacuity), got %s\n%s" % (cfgname, inv, r["violated"], r["out"][-1500:]))
         steps = parse_counterexample(r["out"])
-        if len(steps) < 3:
+        if len(steps) < 1:
             raise Infra("%s: could not parse the counterexample" % cfgname)
         out.append(dict(cfg=cfg_of(work, cfgname), steps=steps, tag=cfgname))
         mcs.append(r)
@@ -179,7 +179,8 @@ def client_check(work, tier, seed, replay, propid):
         lead, lmcs = leads(work, [("MC_ClientLeadNil", "NoNilDelivery"), ("MC_ClientLeadChan", "ChanClosedOnlyAfterOwnDone")])
     else:
         lead, lmcs = leads(work, [("MC_ClientLeadTimer", "Schedule"), ("MC_ClientLeadDeadline", "Deadline"),
-                                  ("MC_ClientLeadCarry", "Schedule"), ("MC_ClientLeadLeak", "IdReusable")])
+                                  ("MC_ClientLeadCarry", "Schedule"), ("MC_ClientLeadLeak", "IdReusable"),
+                                  ("MC_ClientLeadFire", "IdReusable")])
     # 3. random behaviours of the specification
     sims, simr = simulate(work, 150 if quick else 1500, 70, seed)
     # 4. replay into the real clients + random scheduler runs, 5. validate every recorded execution
